@@ -17,15 +17,16 @@ Preconditions that appear as hypotheses:
   the blocks the table owns (nodes, sentinel, header); established by the constructor, preserved by
   every call (`StepOK.owns`), every history and every iterator program.
 
-**Model boundary.**  The model is the algebraic tree the pointer structure spans: there are no parent
-pointers, node identity is the key, and what the C code computes by walking pointers
-(`get_successor_node` / `get_predecessor_node`, `tree_min` + successor loops in `foreach_*`,
-`contains_value`, the iterator) is defined on the in-order list of the tree.  Hence the statements about
-`get_greater_than` / `get_lesser_than`, `foreach`, `contains_value` and the iterator say what these
-functions return *given that the successor walk is the in-order successor* (names ending in `_model`
-below); that the pointer code with its parent links and the sentinel's scratch `parent` field really
-performs this walk is checked on the real heap by the correspondence harness (tree dump compared
-node by node after every call, parent-pointer walker, iterator pointers printed as keys), not here.
+**Model boundary.**  The model is the algebraic tree the pointer structure spans.  A node is addressed
+by its path from the root (its `parent` is the path without the last step); `tree_min`, `tree_max`,
+`get_successor_node`, `get_predecessor_node` and the enumeration loop of `foreach_*` / `contains_value`
+are modelled as the C loops on such positions (`Tree.treeMinPath`, `Tree.succPath`, `Tree.predPath`,
+`Tree.walk`) and **proved** to compute the in-order neighbours (section "The pointer walks").  What stays
+outside the model: that the C `parent` fields really hold the parent (re-parenting in `rotate_*`,
+`transplant`, the sentinel's scratch `parent`) — the harness walks the parent pointers on the real heap
+and prints the iterator's node positions computed by climbing them —, and node identity: an iterator
+refers to a node by its key (the C code never moves a key between nodes), so *which block* is freed by
+`remove_node` is the harness's (ASan) to judge.
 `cc_treeset_remove` / `cc_treeset_iter_remove` store the table's value (the dummy) in `*out`; the
 model keeps that (`Spec.OrdSet.apiOut`), it is an observation outside the wording of C03. -/
 namespace CC.Properties.C03
@@ -102,13 +103,12 @@ theorem destroy_ledger (t : TreeTable) (h : t.Inv cmp) (m : Mem) (hm : TreeTable
 
 /-! ## Iterator (`iter_init`, `iter_next`, `iter_remove`) -/
 
-/-- **Iterator programs** (`_model`: the iterator's node pointers are keys and its successor walk is
-the in-order successor, see the header).  A fresh iterator driven by any program of `next` / `remove`
+/-- **Iterator programs.**  A fresh iterator driven by any program of `next` / `remove`
 calls yields the statuses, keys and values of the ideal cursor, removes exactly the entries the cursor
 removes, and keeps the invariant.  The fault flag stays clear when `remove` is only called after a
 successful `next` (`IterValid`) — for other programs the C code is outside its documented contract and
 the output clauses describe the model only. -/
-theorem iter_refines_model (ho : TotalOrder cmp) (t : TreeTable) (h : t.Inv cmp) (prog : List IterOp) (m : Mem)
+theorem iter_refines (ho : TotalOrder cmp) (t : TreeTable) (h : t.Inv cmp) (prog : List IterOp) (m : Mem)
     (hm : TreeTable.Owns t m) :
     (t.iterRun cmp t.iterInit prog m).1 = ((Cursor.init t.abs).run t.abs prog).1 ∧
     (t.iterRun cmp t.iterInit prog m).2.1.abs = ((Cursor.init t.abs).run t.abs prog).2.2 ∧
@@ -121,12 +121,12 @@ theorem iter_refines_model (ho : TotalOrder cmp) (t : TreeTable) (h : t.Inv cmp)
   exact ⟨this.1, this.2.1, this.2.2.1, this.2.2.2.2.1, this.2.2.2.2.2.1,
     TreeTable.iterRun_owns ho prog h (TreeTable.iterInit_rel t) m hm⟩
 
-/-- **Sessions** (`_model` for their iterator segments): any interleaving of histories of table calls
+/-- **Sessions**: any interleaving of histories of table calls
 with iterator sessions — "removals by key, of the first entry, of the last entry, all, or through an
 iterator" in one history — returns what the ideal map and the ideal cursor return and ends in the ideal
 content, with invariant, ledger balance and ledger consistency; no fault when every iterator session
 respects the precondition of `iter_remove`. -/
-theorem session_refines_model (ho : TotalOrder cmp) (segs : List Segment) (t : TreeTable) (h : t.Inv cmp)
+theorem session_refines (ho : TotalOrder cmp) (segs : List Segment) (t : TreeTable) (h : t.Inv cmp)
     (m : Mem) (hm : TreeTable.Owns t m) :
     (t.runSession cmp segs m).1 = (OrdMap.runSession cmp (TreeTable.refusedOfT t.triple) t.abs segs).1 ∧
     (t.runSession cmp segs m).2.1.abs = (OrdMap.runSession cmp (TreeTable.refusedOfT t.triple) t.abs segs).2 ∧
@@ -229,6 +229,41 @@ theorem spec_lesser_than (m : OrdMap) (hs : Sorted cmp m) (k : Nat) :
 theorem spec_remove_empty (k : Nat) :
     (opRemoveFirst []).1 = .errKeyNotFound ∧ (opRemoveLast []).1 = .errKeyNotFound ∧
     (opRemove [] k).1 = .errKeyNotFound := ⟨rfl, rfl, rfl⟩
+
+/-! ## The pointer walks -/
+
+/-- **`get_successor_node` is the in-order successor, `get_predecessor_node` the in-order predecessor**,
+for every tree (no order assumption): from the node at position `p` the walk — right child's leftmost
+descendant, else climb while coming from the right — arrives at the node whose entry comes next in the
+in-order list, and returns the sentinel exactly when nothing follows; mirrored for the predecessor -/
+theorem successor_walk_is_inorder (t : Tree) (p : Tree.Path) {c a k v b} (h : Tree.subtree t p = .node c a k v b) :
+    t.toList = Tree.ctxBefore t p ++ (k, v) :: Tree.ctxAfter t p ∧
+    Tree.succEntryAt t p = (Tree.ctxAfter t p).head? ∧ Tree.predEntryAt t p = (Tree.ctxBefore t p).getLast? :=
+  ⟨Tree.toList_split t p h, Tree.succEntryAt_eq t p h, Tree.predEntryAt_eq t p h⟩
+
+/-- `get_greater_than` / `get_lesser_than` — descent to the node of a present key, then the pointer
+walk — return the least entry above / the greatest entry below that key -/
+theorem greater_lesser_walk (ho : TotalOrder cmp) (t : TreeTable) (h : t.Inv cmp) (k : Nat)
+    (hk : contains t.abs k = true) :
+    Tree.succOfKey cmp t.root k = succ cmp t.abs k ∧ Tree.predOfKey cmp t.root k = pred cmp t.abs k := by
+  have hf : (Tree.findPath cmp k t.root).isSome := by
+    have h1 := Tree.find_eq_findPath (cmp := cmp) k t.root
+    rw [Tree.find_refines ho k t.root h.1] at h1
+    have h2 := contains_iff_lookup t.abs k
+    rw [hk] at h2
+    cases hp : Tree.findPath cmp k t.root with
+    | some p => rfl
+    | none => rw [hp] at h1; simp only [Option.bind_none, Option.map_none] at h1; unfold TreeTable.abs at h2; rw [h1] at h2; simp at h2
+  have := Tree.succOfKey_eq ho h.1 k hf
+  exact ⟨this.1.trans (Tree.nextAfter_eq_succ ho h.1 hk), this.2.trans (Tree.prevBefore_eq_pred ho h.1 hk)⟩
+
+/-- the enumeration loop `n = tree_min(root); while (n != sentinel) { visit(n); n = get_successor_node(n); }`
+of `foreach_key`, `foreach_value`, `contains_value` visits exactly the in-order list, for every tree -/
+theorem enumeration_walk (t : Tree) : Tree.walk t = t.toList := Tree.walk_eq_toList t
+
+/-- the successor walk calls no comparator and looks at no more nodes than the tree is high -/
+theorem successor_walk_cost (t : Tree) (p : Tree.Path) : Tree.succVisits t p ≤ t.height :=
+  Tree.succVisits_le_height t p
 
 /-! ## C08 / C16, tree part -/
 
